@@ -219,7 +219,9 @@ OnPrepReply(ev, T, Y) ==
 ExecV(ev, its, Y) ==
   LET e == ev.e
       n == Len(ev.ids)
-  IN IF ~ev.idsok \/ \E i \in 1 .. n : ev.ids[i].k[1] # ev.at[1] \/ ev.ids[i].k[2] # ev.at[2] THEN "ExecForeignId"
+  IN IF ~ev.idsok THEN "ExecUnknownId"
+     ELSE IF \E i \in 1 .. n : ev.ids[i].k[1] # ev.at[1] THEN "ExecForeignHost"
+     ELSE IF \E i \in 1 .. n : ev.ids[i].k[2] # ev.at[2] THEN "ExecForeignKeyspace"
      ELSE IF n # Len(its) \/ \E i \in 1 .. n : ev.ids[i].k[3] # its[i].s THEN "ExecWrongStatement"
      ELSE IF \E i \in 1 .. n : ev.nvals[i] # TArity[its[i].s] THEN "ArityNotChecked"
      ELSE IF Get(Y.unp, e, NoId) # NoId /\ \E i \in 1 .. n : ev.ids[i] = Y.unp[e] THEN "UnpreparedNotReprepared"
